@@ -170,12 +170,99 @@ def gen_random(rng, n):
         yield dict(kind=kind, eftcol=eftcol, has_eval=has_eval, enabled=rng.random() > 0.08, req=req, rules=rules, stream="rnd")
 
 
+# ---------------------------------------------------------------- enforce contexts: two effect definitions in one enforcer
+
+
+def ctx_model_text(k1, k2):
+    return f"""[request_definition]
+r = k
+r2 = k
+[policy_definition]
+p = k, tag, eft
+p2 = k, tag, eft
+[policy_effect]
+e = {KINDS[k1]}
+e2 = {KINDS[k2]}
+[matchers]
+m = f(r.k, p.k)
+m2 = f(r2.k, p2.k)
+"""
+
+
+_CTX_ENF = {}
+
+
+def run_context_stream(ctx, res, want, maxlen):
+    """the same enforcer answers plain requests (r, p, e, m) and context requests (r2, p2, e2, m2) in alternation: every
+    answer must be the effect expression OF ITS OWN definition over its own policy, whatever was asked before"""
+    casbin = common.use_repo()
+    kinds = list(KINDS)
+    seqs = [seq for n in range(0, maxlen + 1) for seq in itertools.product(range(4), repeat=n)]
+    rng = ctx["rng"]
+    jobs = []
+    for k1 in kinds:
+        for k2 in kinds:
+            sample = seqs if len(seqs) <= 90 else rng.sample(seqs, 90)
+            for seq in sample:
+                rules1 = [[BASIC[o][0], str(i), BASIC[o][1]] for i, o in enumerate(seq)]
+                rules2 = [[BASIC[o][0], str(i), BASIC[o][1]] for i, o in enumerate(reversed(seq))] + [["k", "x", "maybe"]]
+                jobs.append((k1, k2, rules1, rules2))
+    lines = []
+    for k1, k2, r1, r2 in jobs:
+        for kind, rules in ((k1, r1), (k2, r2)):
+            lines.append(lean_line(dict(kind=kind, eftcol=True, has_eval=False, enabled=True, req=["k"], rules=rules)))
+    answers = run_driver("effect", lines)
+    for j, (k1, k2, r1, r2) in enumerate(jobs):
+        key = (k1, k2)
+        if key not in _CTX_ENF:
+            m = casbin.Enforcer.new_model(text=ctx_model_text(k1, k2))
+            e = casbin.Enforcer(m)
+            e.add_function("f", synth_f)
+            _CTX_ENF[key] = e
+        e = _CTX_ENF[key]
+        p1 = [list(r) for r in r1]
+        p2 = [list(r) for r in r2]
+        e.model.model["p"]["p"].policy = p1
+        e.model.model["p"]["p2"].policy = p2
+        c2 = e.new_enforce_context("2")
+        spec1 = parse_ms(answers[2 * j])[1]
+        spec2 = parse_ms(answers[2 * j + 1])[1]
+        # plain, context, plain, context
+        for step, (args, pol, spec, which) in enumerate([(("k",), p1, spec1, "plain"), ((c2, "k"), p2, spec2, "context"), (("k",), p1, spec1, "plain"), ((c2, "k"), p2, spec2, "context")]):
+            try:
+                r = e.enforce_ex(*args)
+                dec, expl = r[0], r[1]
+                idx = [i for i, rule in enumerate(pol) if rule is expl]
+                got = enc_bool(dec) + "," + (str(idx[0]) if idx else ("-" if not expl else "notinpolicy"))
+            except Exception as ex:  # noqa
+                got = f"!other:{type(ex).__name__}:{str(ex)[:50]}"
+            res.evaluations += 1
+            res.count("stream:context")
+            res.nontrivial.add(hash(("ctx", k1, k2, tuple(map(tuple, r1)), step)))
+            exp = spec if want == "explain" else spec.split(",")[0]
+            obs = got if want == "explain" else (got if got.startswith("!") else got.split(",")[0])
+            if obs != exp:
+                res.violation(
+                    {
+                        "signature": f"context:{which}:{k1}:{k2}",
+                        "what": f"one enforcer with e = {KINDS[k1]!r} and e2 = {KINDS[k2]!r}: call #{step + 1} ({which} request) returned {got}; the effect expression of its own definition gives {spec}",
+                        "case": {"k1": k1, "k2": k2, "rules1": r1, "rules2": r2, "step": step},
+                        "model_text": ctx_model_text(k1, k2),
+                        "expected": spec,
+                        "observed": got,
+                        "kind_of_case": "context",
+                    }
+                )
+                break
+
+
 def run(ctx, res, want):
     """want = 'decision' (C01) or 'explain' (C08): which part of the specification is judged"""
     # a broken proof/tie first gets the quick budget; the deep one only if that finds no failing input
     stages = [(6, 12000)] if not ctx["deep"] else ([(8, 60000)] if ctx["proof_ok"] else [(6, 12000), (8, 60000)])
     for maxlen, nrand in stages:
         _run_stage(ctx, res, want, maxlen, nrand)
+        run_context_stream(ctx, res, want, 3 if maxlen <= 6 else 4)
         if res.spec_violations:
             break
     return res
@@ -185,6 +272,7 @@ def _run_stage(ctx, res, want, maxlen, nrand):
     cases = list(gen_exhaustive(maxlen)) + list(gen_random(ctx["rng"], nrand))
     answers = run_driver("effect", [lean_line(c) for c in cases])
     res.rule = (
+        "[plus the enforce-context stream: 25 pairs (e, e2) of effect expressions in ONE enforcer, plain and context requests alternating] "
         f"every sequence of rule outcomes {{match+allow, match+deny, match+other, no match}} of length <= {maxlen} x 5 effect "
         f"expressions x with/without effect column through Enforcer.enforce_ex/enforce/batch_enforce and the Lean model "
         f"(exhaustive), plus {nrand} seeded random cases (matcher results bool/float/int/str/None, wrong-arity rules and "
@@ -245,6 +333,23 @@ def _run_stage(ctx, res, want, maxlen, nrand):
 
 
 def replay(obj, want):
+    if obj.get("kind_of_case") == "context":
+        r = common.Result()
+        c = obj["case"]
+        casbin = common.use_repo()
+        m = casbin.Enforcer.new_model(text=ctx_model_text(c["k1"], c["k2"]))
+        e = casbin.Enforcer(m)
+        e.add_function("f", synth_f)
+        e.model.model["p"]["p"].policy = [list(x) for x in c["rules1"]]
+        e.model.model["p"]["p2"].policy = [list(x) for x in c["rules2"]]
+        c2 = e.new_enforce_context("2")
+        outs = []
+        for args in [("k",), (c2, "k"), ("k",), (c2, "k")][: c["step"] + 1]:
+            try:
+                outs.append(enc_bool(e.enforce_ex(*args)[0]))
+            except Exception as ex:  # noqa
+                outs.append("!" + type(ex).__name__)
+        return outs[-1] != obj["expected"].split(",")[0]
     c = obj["case"]
     ans = run_driver("effect", [lean_line(c)])[0]
     _, spec = parse_ms(ans)
